@@ -9,7 +9,12 @@
 //	  call fails": no panic, no hang, no PASS when every access fails.  The
 //	  runs of whole real suites are replayed through the model as well (real
 //	  dependency graphs, the outcomes the real checks produced as oracle).
-//	Part B, per check (alone.go): the total-failure clause judged against the
+//	  Every finished run is also a CFault case: Model/RunnerFault.v re-executes it
+//	  over numbered hardware calls under the same fault pattern and must
+//	  reproduce every evaluation's window of calls and failure flags.
+//	Part B, per check (alone.go): a PASS of a check that was handed a failed
+//	  access of its own ("checks convert hwapi errors into internal errors");
+//	  the total-failure clause judged against the
 //	  accesses the check ITSELF made -- in every run of the matrix, and with the
 //	  check run alone on the stored results and filled caches (FIT, TXT
 //	  registers, BIOS data, ACPI) of a healthy run; "hardware-dependent" is
@@ -24,7 +29,7 @@ import (
 	"verifharness/gal"
 )
 
-const header = "From CSS Require Import Lib.Base Lib.Cases Model.Runner Model.RunnerCases."
+const header = "From CSS Require Import Lib.Base Lib.Cases Model.Runner Model.RunnerFault Model.RunnerCases."
 
 func main() {
 	c := gal.New("C06", header, 400)
@@ -35,5 +40,5 @@ func main() {
 	c.Finish("random DAGs of 1..12 tests (random topological numbering, edge density 10/25/50%, duplicate edges, 8 check outcomes incl. rc=true with errors, " +
 		"time-varying outcomes in 1/4 of the graphs, stale initial results in 1/6, Required/Status flags) run through Test.Run in random / dependencies-first / dependants-first / subset / repeating orders and through RunTestsSilent; " +
 		"plus fixed graphs (chains of 12, diamond, TestTest_Run situations, flip witness); plus the real suites' dependency graphs replayed with the outcomes their checks produced under fault patterns; " +
-		"Part B: fault matrix over every test of the TXT and Boot Guard suites (oracle only), every run also judged against the accesses the check itself made; every test again alone after a healthy run of itself / of all tests (stored results and caches kept), every pattern over its own accesses, replayed through the model with the stored results as initial state. A case is non-trivial when at least two checks were evaluated; distinct = distinct Gallina literal")
+		"Part B: fault matrix over every test of the TXT and Boot Guard suites (oracle only), every run also judged against the accesses the check itself made; every test again alone after a healthy run of itself / of all tests (stored results and caches kept), every pattern over its own accesses, replayed through the model with the stored results as initial state; every PASS of a check that was handed a failed access of its own (some, not all) judged by a per-access dependence experiment and a reviewed list; every finished matrix / alone / whole-suite Test.Run run also as a CFault case (runner over numbered hardware calls: windows, failure flags, total calls). A case is non-trivial when at least two checks were evaluated; distinct = distinct Gallina literal")
 }
